@@ -167,46 +167,156 @@ def r2_entropy(chk: Check) -> None:
     chk.decide(set(users) <= {"generation/__init__.py:generate_random_case_id"}, "C13.R2", "generation/__init__.py", "RANDOM used only by generate_random_case_id", f"the unseeded RNG is used by {users}", "generation/__init__.py")
 
 
+_SET_ANN = ("set[", "Set[", "frozenset[", "FrozenSet[", "AbstractSet[", "MutableSet[")
+_SET_METHODS = ("union", "difference", "intersection", "symmetric_difference", "copy")
+_PROJECT: list[Project | None] = [None]
+
+
+def _ann_is_set(ann: ast.AST | None) -> bool:
+    if ann is None:
+        return False
+    t = unparse(ann, 80).strip("'\"")
+    return t in ("set", "frozenset", "Set", "FrozenSet") or t.startswith(_SET_ANN) or any(part.strip().startswith(_SET_ANN) for part in t.split("|") if "None" not in part and len(t.split("|")) == 1)
+
+
 def _is_set_expr(fn: FuncInfo, e: ast.expr, depth: int = 0) -> bool:
+    """Statically set-typed: displays, set()/frozenset(), set algebra, set methods, values of repo functions that are
+    annotated `-> set[...]` (or only return set expressions), parameters / locals annotated as sets, and plain locals
+    all of whose assignments are such expressions."""
     if isinstance(e, (ast.Set, ast.SetComp)):
         return True
     if isinstance(e, ast.Call) and dotted(e.func) in ("set", "frozenset"):
         return True
+    if isinstance(e, ast.Call) and isinstance(e.func, ast.Attribute) and e.func.attr in _SET_METHODS and _is_set_expr(fn, e.func.value, depth):
+        return True
+    if isinstance(e, ast.Call) and depth < 3 and _PROJECT[0] is not None and (isinstance(e.func, ast.Name) or (isinstance(e.func, ast.Attribute) and isinstance(e.func.value, ast.Name) and e.func.value.id in ("self", "cls"))):
+        cands = [t for t in _PROJECT[0].find_function_by_name(last_attr(e) or "") if not isinstance(t.node, ast.Lambda)]
+        if cands and all(_ann_is_set(getattr(t.node, "returns", None)) or (simple_return_expr(t) and all(_is_set_expr(t, r, depth + 1) for r in simple_return_expr(t))) for t in cands):
+            return True
     if isinstance(e, ast.BinOp) and isinstance(e.op, (ast.BitOr, ast.BitAnd, ast.Sub, ast.BitXor)):
         return _is_set_expr(fn, e.left, depth) or _is_set_expr(fn, e.right, depth)
-    if isinstance(e, ast.Name) and depth < 2:
+    if isinstance(e, ast.Name) and depth < 3:
+        node = fn.node
+        if not isinstance(node, ast.Lambda):
+            a_ = node.args
+            for arg in [*a_.posonlyargs, *a_.args, *a_.kwonlyargs]:
+                if arg.arg == e.id and _ann_is_set(arg.annotation):
+                    return True
+        for n_ in walk_body(fn.node):
+            if isinstance(n_, ast.AnnAssign) and isinstance(n_.target, ast.Name) and n_.target.id == e.id and _ann_is_set(n_.annotation):
+                return True
         vals = [v for _, v in assignments_to(fn.node, e.id) if v is not None]
         return bool(vals) and all(_is_set_expr(fn, v, depth + 1) for v in vals)
     return False
 
 
+_ORDER_FREE = ("set", "frozenset", "any", "all", "sum", "min", "max", "sorted", "len")
+
+
+def _consumes_randomness(nodes: Iterable[ast.AST]) -> ast.AST | None:
+    """A draw from the Hypothesis data stream (or anything that is handed `draw`): the ORDER of such calls is part of the
+    generated value, so doing them in set-iteration order makes the result depend on PYTHONHASHSEED even when the
+    collected items are sorted afterwards."""
+    for root in nodes:
+        for x in walk_local(root):
+            if isinstance(x, ast.Call) and (last_attr(x) in ("draw", "is_enabled") or any(isinstance(a, ast.Name) and a.id == "draw" for a in x.args) or any(isinstance(k.value, ast.Name) and k.value.id == "draw" for k in x.keywords)):
+                return x
+    return None
+
+
+def _unwrap_iter(e: ast.expr) -> ast.expr:
+    """`enumerate(S)`, `list(S)`, `tuple(S)`, `iter(S)` iterate S in S's order."""
+    while isinstance(e, ast.Call) and dotted(e.func) in ("enumerate", "list", "tuple", "iter") and e.args:
+        e = e.args[0]
+    return e
+
+
+def _len_is_one_guard(fn: FuncInfo, node: ast.AST, setname: str) -> bool:
+    for a in ancestors(node):
+        if isinstance(a, ast.If) and any(isinstance(c, ast.Compare) and len(c.ops) == 1 and isinstance(c.ops[0], ast.Eq) and unparse(c.left) == f"len({setname})" and isinstance(c.comparators[0], ast.Constant) and c.comparators[0].value == 1 for c in ast.walk(a.test)):
+            if any(node is x or any(p is x for p in ancestors(node)) for x in a.body):
+                return True
+    return False
+
+
 def r3_unordered(chk: Check) -> None:
-    chk.rule("C13.R3", "no unordered iteration feeds order: a loop over a set whose body yields / appends / emits is wrapped in sorted() (order of set iteration depends on PYTHONHASHSEED)", floor=1)
+    chk.rule("C13.R3", "no unordered iteration feeds order: a loop / comprehension over a statically set-typed value (display, set(), set algebra, `-> set[...]` functions, annotated names) neither yields / appends / emits in that order nor DRAWS from the Hypothesis data stream in that order (sorting the collected items afterwards does not help: the draws were already made in hash order); list()/tuple()/sampled_from()/ordered()/.pop() on such a value likewise (order of set iteration depends on PYTHONHASHSEED)", floor=3)
     P = chk.project
+    _PROJECT[0] = P
     n = 0
     for fn in P.all_functions():
         if not fn.module.relpath.startswith(SHAPING_PREFIXES):
             continue
         for node in walk_body(fn.node):
             it = None
-            body: list[ast.stmt] | None = None
+            body: list[ast.AST] | None = None
+            comp = False
             if isinstance(node, ast.For):
-                it, body = node.iter, node.body
-            elif isinstance(node, (ast.ListComp, ast.GeneratorExp)):
-                it = node.generators[0].iter
-            if it is None or not _is_set_expr(fn, it):
+                it, body = node.iter, list(node.body)
+            elif isinstance(node, (ast.ListComp, ast.GeneratorExp, ast.DictComp, ast.SetComp)):
+                g0 = node.generators[0]
+                it = g0.iter
+                comp = True
+                body = [*( [node.key, node.value] if isinstance(node, ast.DictComp) else [node.elt]), *[c for g_ in node.generators for c in g_.ifs], *[g_.iter for g_ in node.generators[1:]]]
+            elif isinstance(node, ast.Call) and node.args and last_attr(node) in ("sampled_from", "ordered", "permutations", "join") and _is_set_expr(fn, node.args[0]):
+                n += 1
+                chk.violation("C13.R3", fn, f"{unparse(node.func, 30)}({unparse(node.args[0], 50)})", "a set is sampled / joined in its iteration order, which changes with PYTHONHASHSEED: two fresh processes with the same seed produce different requests", fn.loc(node))
+                continue
+            elif isinstance(node, ast.Call) and node.args and dotted(node.func) in ("list", "tuple") and _is_set_expr(fn, node.args[0]):
+                # a sequence made from a set: decided by what is done with it
+                n += 1
+                p_ = parent(node)
+                construct = f"{unparse(node.func, 30)}({unparse(node.args[0], 50)})"
+                st_ = stmt_of(node)
+                tgt = st_.targets[0].id if isinstance(st_, ast.Assign) and st_.value is node and len(st_.targets) == 1 and isinstance(st_.targets[0], ast.Name) else None
+                if isinstance(p_, ast.Call) and dotted(p_.func) in _ORDER_FREE:
+                    chk.ok("C13.R3", fn, construct, "consumed by an order-insensitive reducer", fn.loc(node))
+                elif isinstance(p_, (ast.For, ast.comprehension)) and getattr(p_, "iter", None) is node:
+                    pass  # decided below as an iteration (the For / comprehension unwraps list()/tuple()/enumerate())
+                elif tgt is not None:
+                    uses = [x for x in walk_body(fn.node) if isinstance(x, ast.Name) and x.id == tgt and isinstance(x.ctx, ast.Load) and getattr(x, "lineno", 0) >= st_.lineno]
+                    sorted_first = bool(uses) and isinstance(parent(uses[0]), ast.Attribute) and parent(uses[0]).attr == "sort" and isinstance(parent(parent(uses[0])), ast.Call)  # type: ignore[union-attr]
+                    loops = [l_ for l_ in walk_body(fn.node) if isinstance(l_, ast.For) and isinstance(_unwrap_iter(l_.iter), ast.Name) and _unwrap_iter(l_.iter).id == tgt]  # type: ignore[union-attr]
+                    bad = [l_ for l_ in loops if _consumes_randomness(l_.body) is not None or any(isinstance(x, (ast.Yield, ast.YieldFrom)) or (isinstance(x, ast.Call) and last_attr(x) in ("append", "extend", "insert", "write", "put")) for s_ in l_.body for x in walk_local(s_))]
+                    if sorted_first:
+                        chk.ok("C13.R3", fn, construct, f"`{tgt}.sort()` before any other use", fn.loc(node))
+                    elif bad:
+                        chk.violation("C13.R3", fn, construct, f"`{tgt}` keeps the set's iteration order and is then iterated with a body that yields / appends / draws: the order changes with PYTHONHASHSEED", fn.loc(node))
+                    else:
+                        chk.candidate("C13.R3", fn, construct, "a sequence in set order is stored; no order-consuming use in this function - not decided", fn.loc(node))
+                else:
+                    chk.candidate("C13.R3", fn, construct, "a sequence in set order is stored as data (e.g. a JSON Schema `required` list, whose order carries no meaning) - not decided", fn.loc(node))
+                continue
+            elif isinstance(node, ast.Call) and isinstance(node.func, ast.Attribute) and node.func.attr == "pop" and not node.args and isinstance(node.func.value, ast.Name) and _is_set_expr(fn, node.func.value):
+                n += 1
+                construct = f"{unparse(node, 50)}"
+                if _len_is_one_guard(fn, node, node.func.value.id):
+                    chk.ok("C13.R3", fn, construct, "only under `len(...) == 1`: the single element", fn.loc(node))
+                else:
+                    chk.violation("C13.R3", fn, construct, "set.pop() returns an element chosen by hash order: the value depends on PYTHONHASHSEED", fn.loc(node))
+                continue
+            it = _unwrap_iter(it) if it is not None else None
+            if it is None or body is None or not _is_set_expr(fn, it):
                 continue
             n += 1
-            sensitive = body is None or any(
-                isinstance(x, (ast.Yield, ast.YieldFrom)) or (isinstance(x, ast.Call) and last_attr(x) in ("append", "extend", "insert", "write", "put"))
-                for s in body for x in walk_local(s)
-            )
-            if body is None:
-                # a comprehension over a set is order-sensitive unless it is consumed by an order-insensitive reducer
-                p_ = parent(node)
-                if isinstance(p_, ast.Call) and dotted(p_.func) in ("set", "frozenset", "any", "all", "sum", "min", "max", "sorted", "len"):
-                    sensitive = False
             construct = f"for ... in {unparse(it, 60)}"
+            drawn = _consumes_randomness(body)
+            if drawn is not None:
+                chk.violation("C13.R3", fn, construct,
+                              f"`{unparse(drawn, 60)}` draws from the Hypothesis data stream once per element, in set-iteration order: which element gets which draw changes with PYTHONHASHSEED, so two fresh processes with the same seed generate different data (sorting the result afterwards does not undo the order of the draws)",
+                              fn.loc(node))
+                continue
+            if comp:
+                p_ = parent(node)
+                sensitive = not (isinstance(node, ast.SetComp) or (isinstance(p_, ast.Call) and dotted(p_.func) in _ORDER_FREE))
+                # a dict built in set order: only its iteration order is affected - decided where that dict is iterated
+                if isinstance(node, ast.DictComp):
+                    sensitive = False
+            else:
+                sensitive = any(
+                    isinstance(x, (ast.Yield, ast.YieldFrom)) or (isinstance(x, ast.Call) and last_attr(x) in ("append", "extend", "insert", "write", "put"))
+                    for s in body for x in walk_local(s)
+                )
             if sensitive:
                 chk.violation("C13.R3", fn, construct, "the loop body yields/appends in set-iteration order, which changes with PYTHONHASHSEED: two fresh processes with the same seed produce a different order of examples / requests", fn.loc(node))
             else:
